@@ -19,6 +19,7 @@ STRUCTS = [
     ('5 atoms, extra columns, tables, duplicate bond', lambda cell: mk(5, True, xf=True, cell=cell, dup=True)),
     ('4 atoms, all term kinds, no tables', lambda cell: mk(4, False, cell=cell)),
     ('2 atoms, charges and groups only', lambda cell: mk(2, True, cell=cell, kinds=[])),
+    ('2 atoms, exactly one bond, tables', lambda cell: mk(2, True, cell=cell)),
     ('4 atoms, impropers only, tables', lambda cell: mk(4, True, cell=cell, kinds=['improper'])),
     ('4 atoms, angles + impropers only, no tables', lambda cell: mk(4, False, cell=cell, kinds=['angle', 'improper'])),
     ('4 atoms, dihedrals only, extra columns', lambda cell: mk(4, True, cell=cell, kinds=['dihedral'], xf=True)),
